@@ -17,7 +17,8 @@ type cliOpts struct {
 }
 
 type connCfg struct {
-	Script     string `json:"script"` // duplex | upclose | downclose | abort | half | idle | zero
+	Script     string `json:"script"`            // duplex | upclose | downclose | abort | half | idle | zero | longidle
+	IdleMs     int    `json:"idle_ms,omitempty"` // longidle: the connection stays untouched until this long after it was opened
 	NUp        int64  `json:"n_up"`
 	NDown      int64  `json:"n_down"`
 	ClsUp      int    `json:"cls_up"`
@@ -57,6 +58,8 @@ type caseCfg struct {
 	A       cliOpts    `json:"client_a"`
 	B       cliOpts    `json:"client_b"` // visitor side client (only used with stcp / xtcp proxies)
 	Proxies []proxyCfg `json:"proxies"`
+	// Plugins: additional proxies of client A whose local side is a client plugin (plugin.go)
+	Plugins []pluginCfg `json:"plugins,omitempty"`
 	// GateVisitor: hold frps at the visitor hand-over hook until the user has read the backend's greeting
 	GateVisitor bool `json:"gate_visitor,omitempty"`
 }
@@ -324,6 +327,19 @@ func genCases(n int, thorough bool, rngFor func(i int) *rand.Rand, servers []*sr
 		for j := range best.Proxies {
 			genConns(rng, &best.Proxies[j], thorough, servers[best.Server].passthrough)
 		}
+		if rng.Intn(8) == 0 {
+			// some generated cases also get tunnels that end in a client plugin
+			for k, np := 0, 1+rng.Intn(2); k < np; k++ {
+				best.Plugins = append(best.Plugins, pluginCfg{
+					Plugin: []string{"http2http", "http_proxy", "static_file"}[rng.Intn(3)], Type: []string{"tcp", "stcp"}[rng.Intn(2)],
+					Enc: rng.Intn(2) == 0, Comp: rng.Intn(3) != 0, Conns: 2 + rng.Intn(4), Rounds: 1 + rng.Intn(3), Parts: 1 + rng.Intn(8),
+					PartBytes: 1 + rng.Intn(20000), PauseMs: 20 + rng.Intn(80), Cls: rng.Intn(numClasses), Seed: rng.Uint64() >> 1,
+				})
+				if pc := &best.Plugins[len(best.Plugins)-1]; pc.Enc || pc.Comp {
+					pc.Rounds = 1 // see pluginCase: keep-alive over layered plugin tunnels is C02's listed finding
+				}
+			}
+		}
 		out = append(out, best)
 	}
 	return out, len(covered)
@@ -331,7 +347,7 @@ func genCases(n int, thorough bool, rngFor func(i int) *rand.Rand, servers []*sr
 
 func (cc *caseCfg) signature() string {
 	var sb strings.Builder
-	fmt.Fprintf(&sb, "s%d|%v|%v", cc.Server, cc.A, cc.B)
+	fmt.Fprintf(&sb, "s%d|%v|%v|%v|%v", cc.Server, cc.A, cc.B, cc.Plugins, cc.GateVisitor)
 	for _, p := range cc.Proxies {
 		fmt.Fprintf(&sb, "|%s,%v,%v,%v,%v,%s%d,%s,%v,%v", p.Kind, p.Enc, p.Comp, p.VEnc, p.VComp, p.Limit, p.LKB, p.PP, p.Greet, p.StrictRate)
 		var cs []string
